@@ -874,8 +874,8 @@ func (c *Check) codecContracts(rule string) {
 	if fn := p.Fn("openMessage.getCapabilities"); fn != nil {
 		isCap := func(v int64) func(e *Expr) (ISet, bool) {
 			return func(e *Expr) (ISet, bool) {
-				if e.Op == "istype" && strings.Contains(e.S, "capabilityOptionalParam") {
-					return isConst(v), true
+				if e.Op == "istype" {
+					return p.assertAnswer(e.S, "*capabilityOptionalParam", v == 1)
 				}
 				return nil, false
 			}
